@@ -339,7 +339,18 @@ def run(p, report, tier):
         ent = f"{ci.name}.{f.name}"
         # cached parameters (`w = self.w`), hoisted invariants and named
         # guards (`budget_left = u / w < budget`) are substituted back first
-        fnode = inline_temporaries(f.node)
+        # (a local seeded from an attribute that update() commits is the
+        # running estimate itself and stays a name even if it is never advanced)
+        from . import c10 as _c10
+        committed = set()
+        for u in _c10.update_chain(p, ci):
+            for n in ast.walk(u.node):
+                if isinstance(n, ast.Attribute) and isinstance(n.ctx, ast.Store) and isinstance(n.value, ast.Name) \
+                        and n.value.id == "self":
+                    committed.add(n.attr)
+        fnode = inline_temporaries(f.node, keep=lambda a, committed=committed: isinstance(a.value, ast.Attribute)
+                                   and isinstance(a.value.value, ast.Name) and a.value.value.id == "self"
+                                   and a.value.attr in committed)
         L = instance_loop(fnode)
         if L is None:
             report.add("R4.1", ent, "per-instance loop", f"{f.file}:{fnode.lineno}", False,
